@@ -41,6 +41,8 @@ pub enum Op {
     ObjPut(usize, usize),
     /// delete_object("obj") on replica r
     ObjDel(usize),
+    /// read(None) on replica r (warms the reconstruction caches; the result is not part of the state)
+    Read(usize),
 }
 
 impl Op {
@@ -60,7 +62,8 @@ impl Op {
             | Op::Reopen(r)
             | Op::CopyAll(r, _)
             | Op::ObjPut(r, _)
-            | Op::ObjDel(r) => *r,
+            | Op::ObjDel(r)
+            | Op::Read(r) => *r,
         }
     }
     pub fn short(&self) -> String {
@@ -80,6 +83,7 @@ impl Op {
             Op::CopyAll(r, s) => format!("copyall({}<-{})", r, s),
             Op::ObjPut(r, n) => format!("objput({},{})", r, n),
             Op::ObjDel(r) => format!("objdel({})", r),
+            Op::Read(r) => format!("read({})", r),
         }
     }
 }
@@ -414,6 +418,10 @@ impl World {
                         .map_err(|e| e.to_string())
                 })
             }
+            Op::Read(_) => {
+                let m = &self.reps[r].m;
+                call(&label, || m.read(None).map(|d| sha_hex(Value::Object(d).to_string().as_bytes())[..8].to_string()).map_err(|e| e.to_string()))
+            }
             Op::CopyAll(_, s) => {
                 if *s >= self.reps.len() || *s == r {
                     return OpOut::NotEnabled("bad source".into());
@@ -508,6 +516,8 @@ impl World {
 pub struct KeyOpts {
     pub caches: bool,
     pub heads: bool,
+    /// also distinguish states by the content of the array-reconstruction cache (cold / warm readers)
+    pub acache: bool,
 }
 
 impl Default for KeyOpts {
@@ -515,6 +525,7 @@ impl Default for KeyOpts {
         KeyOpts {
             caches: true,
             heads: false,
+            acache: false,
         }
     }
 }
@@ -606,6 +617,11 @@ pub fn replica_state(rep: &Replica, opts: &KeyOpts) -> Value {
         }
         if opts.heads {
             v["heads"] = json!(rep.heads);
+        }
+        if opts.acache {
+            let mut ac = m.verif_array_cache_keys();
+            ac.sort();
+            v["acache"] = json!(ac);
         }
         v
     });
